@@ -70,6 +70,11 @@ def body(run):
         src = fz.texture(rng, g.src_shape, 1, lo=20, hi=220)
         ref = fz.texture(rng, g.ref_shape, 1, lo=30, hi=180)
         results = []
+        # the options that choose other code paths for masks and resampling, in turn (partial masking builds the output mask from a re-projected
+        # validity mask instead of taking the source mask)
+        mc = [None, dict(mask_partial=True, downsampling='nearest'), dict(mask_partial=True), dict(upsampling='bilinear'),
+              dict(mask_partial=True, downsampling='mode'), dict(downsampling='bilinear', upsampling='nearest')][k % 6]
+        ks_for_mem = kshape if not (mc or {}).get('mask_partial') else (kshape[0] + 2, kshape[1] + 2)
         vs = variants(dtype, rng)
         if not run.thorough:
             # baseline, the numeric-nodata / first alternative, and one more drawn at random
@@ -81,14 +86,14 @@ def body(run):
             pair = fz.make_pair(run.work, g, rng, src=src, ref=ref, smask=sm, rmask=rm, tag='e', src_kw=skw, ref_kw=rkw)
             if name == vs[0][0]:
                 try:
-                    mbm, _n = fz.pick_block_mem(pair['src_fn'], pair['ref_fn'], proc, 4, kshape, 1.2)
+                    mbm, _n = fz.pick_block_mem(pair['src_fn'], pair['ref_fn'], proc, 4, ks_for_mem, 1.2)
                 except Exception as ex:
                     if type(ex).__name__ not in ('BlockSizeError', 'ImageContentError'):
                         raise
                     unworkable = True        # the processing window is smaller than the kernel's overlap: homonim refuses the geometry
                     break
             res = fz.fuse(pair['src_fn'], pair['ref_fn'], run.work / 'enc.tif', model=model, kernel_shape=kshape, proc_crs=proc,
-                          max_block_mem=mbm, threads=1, out_profile=dict(dtype='float32', nodata=NAN))
+                          max_block_mem=mbm, threads=1, out_profile=dict(dtype='float32', nodata=NAN), model_config=mc)
             cmp_ = fz.compare(pair['src_fn'], pair['ref_fn'], proc_crs=proc, max_block_mem=mbm)
             results.append((name, res, cmp_))
         if unworkable:
@@ -99,7 +104,7 @@ def body(run):
             key = f'{dtype}/{which}/{name}/{model}'
             dist[key] = dist.get(key, 0) + 1
             desc = dict(geom=g.describe(), dtype=dtype, varied=which, baseline=base[0], encoding=name, model=model,
-                        kernel_shape=list(kshape), proc_crs=proc)
+                        kernel_shape=list(kshape), proc_crs=proc, model_config=mc)
             run.count_case((k, name), True, desc if len(run.cov['samples']) < 4 else None)
             problems = {}
             for part in ('corr', 'param'):
